@@ -24,6 +24,7 @@ type goroutine struct {
 	ready func() bool // nil = running
 	main  bool
 	frame *frame
+	idleWaiter bool // blocked in vxIdleWait (does not keep others from being "idle")
 }
 
 type sendItem struct {
@@ -50,6 +51,7 @@ type scheduler struct {
 	bgPanics []value
 	spawned  int
 	switches int
+	inRunAll bool
 }
 
 func newScheduler(i *interpreter) *scheduler {
@@ -98,8 +100,10 @@ func (s *scheduler) spawn(i *interpreter, pos token.Pos, fn value, args []value)
 			case goexit:
 			case targetPanic:
 				s.bgPanics = append(s.bgPanics, r.v)
+				debugf("background goroutine panicked: %s", toString(r.v))
 			case runtimeError:
 				s.bgPanics = append(s.bgPanics, r.Error())
+				debugf("background goroutine runtime error: %s%s", r.Error(), r.where)
 			default:
 				s.fatal = r
 			}
